@@ -124,6 +124,34 @@ def run_case(c):
     maxD = 0.0
     offblock = 0.0
     nat = len(pr)
+    if nat > 1:
+        # the spectrum does not depend on the order in which the primitive cell lists its atoms (public positions_to_reorder argument of Primitive:
+        # the primitive-to-supercell map is then not ascending); the matrix built the way a direct user of the module builds it
+        from phonopy.harmonic.dynamical_matrix import get_dynamical_matrix
+        from phonopy.structure.cells import Primitive
+
+        perm = rng.permutation(nat)
+        if np.array_equal(perm, np.arange(nat)):
+            perm = perm[::-1]
+        pr2 = Primitive(sc, pr.primitive_matrix, symprec=ph.symmetry.tolerance, store_dense_svecs=c["store_dense_svecs"], positions_to_reorder=np.array(pr.scaled_positions)[perm])
+        p2s2 = np.array(pr2.p2s_map)
+        if sorted(p2s2.tolist()) == sorted(p2s.tolist()):
+            # (a square array is the full layout by definition: no re-ordered "compact" rows when the supercell is the primitive cell)
+            dm2 = get_dynamical_matrix(np.array(fc if c["full"] or n == nat else fc[p2s2], dtype="double", order="C"), sc, pr2)
+            G_ = rng.integers(-2, 3, 3)
+            for q in qs + [np.zeros(3), qs[0] + (G_ if G_.any() else np.array([0, 1, 0]))]:
+                l1 = np.linalg.eigvalsh(_eig(dm, q, lang))
+                D2 = _eig(dm2, q, lang)
+                l2 = np.linalg.eigvalsh((D2 + D2.conj().T) / 2)
+                obs["n_reordered_primitive"] = obs.get("n_reordered_primitive", 0) + 1
+                ls_ = max(np.abs(l1).max(), fscale)
+                if np.abs(D2 - D2.conj().T).max() > 1e-13 * max(np.abs(D2).max(), fscale):
+                    bad("not_hermitian", "primitive cell listed in the order %s: |D-D^dagger| = %.3e at q=%s" % (perm.tolist(), np.abs(D2 - D2.conj().T).max(), np.round(q, 4).tolist()), reordered_primitive=True)
+                if np.abs(l1 - l2).max() > 1e-10 * ls_:
+                    bad("atom_order_dependence", "eigenvalues change by %.3e (scale %.3e) when the primitive cell lists its atoms in the order %s (p2s_map %s) at q=%s" % (
+                        np.abs(l1 - l2).max(), ls_, perm.tolist(), p2s2.tolist(), np.round(q, 4).tolist()), reordered_primitive=True)
+        else:
+            bad("reordered_primitive", "Primitive(positions_to_reorder=permuted positions) lists other atoms: p2s_map %s vs %s" % (p2s2.tolist(), p2s.tolist()))
     for q in qs:
         D = _eig(dm, q, lang)
         s = max(np.abs(D).max(), fscale)
